@@ -952,6 +952,30 @@ val bc_wf : z -> bool -> bprog -> bool
 
 val bc_wf_why : z -> bool -> bprog -> z
 
+type rop =
+| REnter
+| RMov of z
+| RGet of z
+| RSet of z * z
+
+type robs =
+| RVal of z
+| RProbe of bool
+
+val r_get : rtape -> z -> z tres
+
+val r_set : rtape -> z -> z -> rtape tres
+
+val r_probe : policy -> z -> z -> bool -> rtape -> z -> rtape tres
+
+val r_run :
+  policy -> z -> z -> rop list -> bool list -> rtape -> (robs list * rtape)
+  tres
+
+val r_spec : rop list -> (z -> z) -> z -> z list
+
+val rops_ok : z -> z -> rop list -> z -> bool
+
 type kind =
 | KPrintIr
 | KPrintBc
